@@ -12,7 +12,8 @@ import glob, json, os, random, shutil, subprocess, sys
 ROOT = os.path.dirname(os.path.dirname(os.path.abspath(__file__)))
 sys.path.insert(0, os.path.join(ROOT, "checks")); sys.path.insert(0, os.path.join(ROOT, "gen"))
 import lib, traffic
-B = "/tmp/fzbuild"; C = "/tmp/fzcorpus"; M = "/tmp/fzmerged"; CR = "/tmp/fzcrash"
+TARGET = os.environ.get("FUZZ_TARGET", "conn")      # conn | fn
+B = "/tmp/fzbuild_" + TARGET; C = "/tmp/fzcorpus_" + TARGET; M = "/tmp/fzmerged_" + TARGET; CR = "/tmp/fzcrash_" + TARGET
 
 
 def build():
@@ -25,7 +26,7 @@ def build():
     hobjs, err = lib._compile_many("clang", cf + ["-fsanitize=address", "-I" + lib.HARNESS, "-Dmain=corr_main",
                                                   "-D__sanitizer_cov_trace_pc_guard=unused_guard", "-D__sanitizer_cov_trace_pc_guard_init=unused_guard_init"], hs, B)
     assert not err, err
-    fz = os.path.join(lib.HARNESS, "fuzz", "fuzz_conn.c")
+    fz = os.path.join(lib.HARNESS, "fuzz", "fuzz_%s.c" % TARGET)
     r = lib.run(["clang"] + cf + ["-fsanitize=fuzzer,address", "-I" + lib.HARNESS, fz] + objs + hobjs + ["-lz", "-lpthread", "-o", B + "/fuzz"])
     assert r.returncode == 0, r.stderr[-3000:]
     r = lib.run(["clang", "-O1", "-DFUZZ_DUMP", "-w"] + lib.CFLAGS_COMMON + ["-I" + lib.HARNESS, fz, "-o", B + "/dump"])
@@ -33,7 +34,41 @@ def build():
     print("built", B)
 
 
+def seed_fn():
+    os.makedirs(C, exist_ok=True)
+    sys.path.insert(0, os.path.join(ROOT, "checks"))
+    import c12
+    rng = random.Random(9)
+    toks = c12.escape_tokens()
+    n = 0
+    for sel in range(14):
+        for i in range(25):
+            if sel in (0, 1):
+                body = b"B\n--B\r\nContent-Disposition: form-data; name=\"a\"\r\n\r\nv\r\n--B\r\nContent-Disposition: form-data; name=\"f\"; filename=\"x.txt\"\r\nContent-Type: text/plain\r\n\r\nfile\r\n--B--\r\n"
+                if i % 3 == 1:
+                    k = rng.randint(3, len(body) - 1); body = body[:k] + b"\xfe\xfe" + body[k:]
+                if i % 5 == 4:
+                    body = b"\"b q\"\n--b q\r\nX: y\r\n z\r\n\r\ndata\r\n--b q--"
+            elif sel in (2, 9):
+                body = b"&".join(rng.choice(toks) + b"=" + rng.choice(toks) for _ in range(rng.randint(1, 3)))
+            elif sel in (3, 8):
+                body = rng.choice((b"http://u:p@host.example:80/a/b?q=1#f", b"/a/../b", b"//h/p", b"h:1", b"http://[::1]:8/", b"a://b@c")) + rng.choice(toks)
+            elif sel in (4, 5):
+                body = rng.choice((b"host.example:80", b"[::1]:443", b"a..b", b" h :8 ", b"[1:2", b"h:65536"))
+            elif sel == 12:
+                body = rng.choice((b"::1", b"1:2:3:4:5:6:7:8", b"::ffff:1.2.3.4", b"1::2::3"))
+            else:
+                body = b"/" + b"".join(rng.choice(toks) for _ in range(rng.randint(1, 4)))
+            open(os.path.join(C, "s_%d_%d" % (sel, i)), "wb").write(bytes([sel, rng.randrange(16)]) + body); n += 1
+    open(B + "/dict", "w").write("\n".join('"%s"' % x for x in (
+        "\\xfe\\xfe", "\\x0d\\x0a", "\\x0d\\x0a\\x0d\\x0a", "--", "Content-Disposition: form-data; name=\\\"", "; filename=\\\"", "Content-Type: ", "%u0041", "%u002f",
+        "%2f", "%5c", "%00", "%2e", "%c0%af", "%uff0f", "/../", "/./", "://", "@", "[::1]", ":80", "?", "#", "&", "=", "+", "%25", "\\\\")) + "\n")
+    print("seeds:", n)
+
+
 def seed():
+    if TARGET == "fn":
+        return seed_fn()
     os.makedirs(C, exist_ok=True)
     n = 0
     rng = random.Random(7)
@@ -60,16 +95,16 @@ def seed():
 
 def run(seconds):
     os.makedirs(CR, exist_ok=True)
-    cmd = [B + "/fuzz", "-fork=14", "-max_len=3000", "-timeout=10", "-rss_limit_mb=3000", "-max_total_time=%d" % seconds, "-dict=" + B + "/dict",
+    cmd = [B + "/fuzz", "-fork=14", "-max_len=%d" % (3000 if TARGET == "conn" else 400), "-timeout=10", "-rss_limit_mb=3000", "-max_total_time=%d" % seconds, "-dict=" + B + "/dict",
            "-artifact_prefix=" + CR + "/", "-ignore_crashes=1", "-ignore_timeouts=1", "-ignore_ooms=1", "-print_final_stats=1", C]
     env = dict(os.environ, ASAN_OPTIONS="detect_leaks=1:abort_on_error=0:allocator_may_return_null=1")
-    subprocess.run(cmd, env=env, stdout=open("/tmp/fzrun.log", "a"), stderr=subprocess.STDOUT)
-    print(subprocess.run("tail -5 /tmp/fzrun.log; ls %s | wc -l; ls %s | wc -l" % (C, CR), shell=True, capture_output=True, text=True).stdout)
+    subprocess.run(cmd, env=env, stdout=open("/tmp/fzrun_%s.log" % TARGET, "a"), stderr=subprocess.STDOUT)
+    print(subprocess.run("tail -5 /tmp/fzrun_%s.log;" % TARGET + " ls %s | wc -l; ls %s | wc -l" % (C, CR), shell=True, capture_output=True, text=True).stdout)
 
 
 def distill(maxn=None):
     shutil.rmtree(M, ignore_errors=True); os.makedirs(M)
-    subprocess.run([B + "/fuzz", "-merge=1", "-max_len=3000", "-timeout=10", M, C], stdout=open("/tmp/fzmerge.log", "w"), stderr=subprocess.STDOUT)
+    subprocess.run([B + "/fuzz", "-merge=1", "-max_len=%d" % (3000 if TARGET == "conn" else 400), "-timeout=10", M, C], stdout=open("/tmp/fzmerge.log", "w"), stderr=subprocess.STDOUT)
     files = sorted(glob.glob(M + "/*"), key=lambda p: (os.path.getsize(p), p))
     if maxn:
         files = files[:maxn]
@@ -82,8 +117,8 @@ def distill(maxn=None):
     for l in lines:
         if l not in seen:
             seen.add(l); json.loads(l); keep.append(l)
-    open(os.path.join(out, "conn.jsonl"), "w").write("\n".join(keep) + "\n")
-    print("merged files:", len(files), "scripts:", len(keep), "bytes:", os.path.getsize(os.path.join(out, "conn.jsonl")))
+    open(os.path.join(out, TARGET + ".jsonl"), "w").write("\n".join(keep) + "\n")
+    print("merged files:", len(files), "scripts:", len(keep), "bytes:", os.path.getsize(os.path.join(out, TARGET + ".jsonl")))
 
 
 if __name__ == "__main__":
